@@ -18,8 +18,11 @@ pub fn emit_interface_impl(interface: &Interface) -> String {
     let mut implementations = String::new();
 
     // need to have all of the base-class functions, error-codes and const values
-    interface.iter().skip(1).for_each(|iface| {
-        base_iface.push_str(&format!("I{} ", &iface.ident.to_string()));
+    interface.iter().skip(1).enumerate().for_each(|(depth, iface)| {
+        // only the immediate base is named: it derives from the remaining ancestors itself
+        if depth == 0 {
+            base_iface.push_str(&format!("I{} ", &iface.ident.to_string()));
+        }
         iface.nodes.iter().for_each(|node| match node {
             InterfaceNode::Const(c) => {
                 constants.push_str(&format!(
